@@ -7,6 +7,8 @@ import Mathlib.Analysis.SpecialFunctions.Gaussian.GaussianIntegral
 import Mathlib.Analysis.SpecialFunctions.Integrals.Basic
 import Mathlib.MeasureTheory.Integral.IntegralEqImproper
 import Mathlib.Analysis.Calculus.Deriv.Inv
+import Mathlib.Analysis.SpecialFunctions.ImproperIntegrals
+import Mathlib.MeasureTheory.Measure.Haar.NormedSpace
 set_option linter.unusedSectionVars false
 /-!
 # C18 — fits label their parameters; lineshapes are normalised
@@ -73,6 +75,25 @@ theorem gaussian_area (x0 s A : ℝ) (hs : 0 < s) : ∫ x : ℝ, gaussian realT 
   have : π / (1 / (2 * s ^ 2)) = (s * √(2 * π)) ^ 2 / 1 := by
     rw [mul_pow, Real.sq_sqrt (by positivity)]; field_simp
   rw [this, div_one, Real.sqrt_sq (by positivity)]
+  field_simp
+
+/-- the Lorentzian's area equals its `integral` argument (γ > 0) -/
+theorem lorentzian_area (x0 g A : ℝ) (hg : 0 < g) : ∫ x : ℝ, lorentzian realT x x0 g A = A := by
+  unfold lorentzian
+  simp only [realT]
+  have hfun : (fun x : ℝ => A * (((1 : ℕ) : ℝ) / (π * g)) * (g * g) / ((x - x0) * (x - x0) + g * g))
+      = fun x => (A / (π * g)) * (fun y : ℝ => (fun z : ℝ => (1 + z ^ 2)⁻¹) (y / g)) (x - x0) := by
+    funext x
+    have hgne : g ≠ 0 := hg.ne'
+    have hden : (x - x0) * (x - x0) + g * g ≠ 0 := by nlinarith [mul_self_nonneg (x - x0), mul_self_pos.2 hgne]
+    have hden2 : 1 + ((x - x0) / g) ^ 2 ≠ 0 := by positivity
+    push_cast
+    field_simp
+    ring
+  rw [hfun, integral_const_mul, integral_sub_right_eq_self (fun y : ℝ => (fun z : ℝ => (1 + z ^ 2)⁻¹) (y / g)) x0,
+    Measure.integral_comp_div (fun z : ℝ => (1 + z ^ 2)⁻¹) g, integral_univ_inv_one_add_sq, abs_of_pos hg]
+  have hgne : g ≠ 0 := hg.ne'
+  simp only [smul_eq_mul]
   field_simp
 
 variable {κ α : Type} [Inhabited α] [Inhabited κ]
